@@ -222,6 +222,15 @@ static void enumerate(report& r, int reduced, sz min_len, sz max_len, char const
 
 // ---- distributions: every bin is combined independently ---------------------------------------------
 
+// the distributions of a combination, whatever type the combination has (a range of results that carry
+// distributions must give a result that carries them, too)
+template <typename T>
+struct dists_of
+{
+    static std::vector<hep::distribution_result<T>> const* get(hep::plain_result<T> const& r) { return &r.distributions(); }
+    static std::vector<hep::distribution_result<T>> const* get(hep::mc_result<T> const&) { return nullptr; }
+};
+
 template <typename T, template <typename> class Acc>
 static void bins_case(report& r, std::vector<item<T>> const& alpha, std::vector<std::vector<sz>> const& per_result,
     sz ndist, std::string const& id)
@@ -271,6 +280,32 @@ static void bins_case(report& r, std::vector<item<T>> const& alpha, std::vector<
             if (!same(comb.distributions()[d].results()[b], hep::accumulate<Acc>(col.begin(), col.end())))
                 r.violate("bin-wise-combination", id, id + ": distribution " + std::to_string(d) + " bin " + std::to_string(b)
                     + " differs from combining that bin's results alone");
+        }
+    }
+    // ranges of the integrators' own result types (derived from plain_result) are combined in the same way
+    {
+        hep::vegas_pdf<T> pdf(1, 2);
+        std::vector<hep::vegas_result<T>> vseq;
+        std::vector<hep::multi_channel_result<T>> mseq;
+        for (auto const& p : seq)
+        {
+            vseq.emplace_back(p, pdf, std::vector<T>(2, T(1)));
+            mseq.emplace_back(p, std::vector<T>(2, T(1)), std::vector<T>(2, T(0.5)));
+        }
+        auto const vc = hep::accumulate<Acc>(vseq.begin(), vseq.end());
+        auto const mc = hep::accumulate<Acc>(mseq.begin(), mseq.end());
+        struct { char const* what; hep::mc_result<T> const* res; std::vector<hep::distribution_result<T>> const* d; } const derived[] =
+            {{"vegas_result", &vc, dists_of<T>::get(vc)}, {"multi_channel_result", &mc, dists_of<T>::get(mc)}};
+        for (auto const& dv : derived)
+        {
+            bool ok = same(*dv.res, comb) && dv.d != nullptr && dv.d->size() == comb.distributions().size();
+            for (sz d = 0; ok && d != dv.d->size(); ++d)
+            {
+                ok = (*dv.d)[d].results().size() == comb.distributions()[d].results().size();
+                for (sz b = 0; ok && b != (*dv.d)[d].results().size(); ++b) ok = same((*dv.d)[d].results()[b], comb.distributions()[d].results()[b]);
+            }
+            if (!ok) r.violate("bin-wise-combination", id, id + ": a range of " + dv.what + " is not combined like the same range of plain_result"
+                + (dv.d == nullptr ? " (the combination carries no distributions at all)" : ""));
         }
     }
     r.distinct(vf::hash_str(id));
